@@ -23,6 +23,12 @@ types, any alphabets, ε-moves, junk rows, any order of the lists that stand for
 `Valid n` is: `n.validate = .ok ()` (exactly what `NFA.validate` checks) and the transition
 table is a dict of dicts (keys unique at both levels — a representation invariant of Python
 dicts, not a restriction on automata).
+
+`kleene_star`, `option` and `reverse` add the state `_add_new_state` picks (the first natural
+number that is not a state); `nat : ℕ → σ` is the embedding of Python's ints into the
+state-name type and is assumed injective (distinct ints are distinct names) — for integer
+names it is the identity.  The two operands of a binary operation may have different
+state-name types; overlapping names are the special case `σ₁ = σ₂`.
 -/
 import AutomataVerif.Proofs.EpsOpsA
 import AutomataVerif.Proofs.EpsOpsB
